@@ -301,9 +301,7 @@ def fn_suite(ctx, exe, tier):
     for c in direct:
         for s in c['seq']:
             ctx.bump('fn_shape_' + s)
-    # in the direct route a dynamic array is a `()` array and the FUNCTION is a SUB with a _retval local
-    for c in direct:
-        c['exp_direct'] = c['exp']
+    # (in the direct route a dynamic array is a `()` array and the FUNCTION is a SUB with a _retval local)
     n1 = run_fn_suite(ctx, exe, direct, 'layout_fn', direct=True)
     n2 = run_fn_suite(ctx, exe, compiled, 'layout_fn_compiled')
     return n1 + n2
